@@ -502,6 +502,33 @@ pub fn sweep(ctx: &Ctx, rep: &Report, v: &dyn Visitor, want_registers: bool) -> 
             }
         }
     }
+    // character fields filled with ONE character, and runs of it at either end (all 64 codes): BDS 0,8 and BDS 2,0
+    // call signs, BDS 2,1 registration (7 characters) and airline (2 characters)
+    for code in 0..64u8 {
+        for k in 1..=8usize {
+            for at_end in [false, true] {
+                let mut cs = cs_codes("ABCDEFGH");
+                for i in 0..k {
+                    cs[if at_end { 7 - i } else { i }] = code;
+                }
+                batch.push(("identification:runs", df17(5, addr, &me_bds08(4, 0, &cs), 0)));
+                batch.push(("identification:bds20:runs", df20_21(20, 0, 0, 0, ac13_q(35000), &mb_bds20(&cs), addr)));
+                // BDS 2,1: status, 7 x 6 bits, status, 2 x 6 bits
+                for (s1, s2) in [(1u64, 0u64), (1, 1), (0, 1)] {
+                    let mut mb = [0u8; 7];
+                    set_bits(&mut mb, 0, 1, s1);
+                    for (i, c) in cs.iter().take(7).enumerate() {
+                        set_bits(&mut mb, 1 + 6 * i, 6, *c as u64);
+                    }
+                    set_bits(&mut mb, 43, 1, s2);
+                    set_bits(&mut mb, 44, 6, cs[7] as u64);
+                    set_bits(&mut mb, 50, 6, code as u64);
+                    batch.push(("bds21:runs", df20_21(21, 0, 0, 0, id13(1, 2, 3, 4), &mb, addr)));
+                    batch.push(("bds21:runs", df20_21(20, 0, 0, 0, ac13_q(35000), &mb, addr)));
+                }
+            }
+        }
+    }
     // BDS 6,2: all selected altitudes, all QNH, all headings; BDS 6,1: all identity codes x subtype x emergency
     for alt in 0..2048u16 {
         batch.push(("bds62", df17(5, addr, &me_bds62(1, (alt & 1) as u8, alt, 300, 1, 100, 9, 1, 3, 0xff), 0)));
